@@ -30,11 +30,12 @@ class StepTimeout(RuntimeError):
     """env.step did not return within the watchdog time (a loop inside the environment that never terminates)"""
 
 
-_TIMEOUTS = [0]  # per process: after a few hanging steps every later step only gets a short watchdog (fail fast)
+_TIMEOUTS = {}  # per process and environment class: hanging steps seen so far (fail fast after a few)
+_CURRENT = [None]
 
 
 def _on_alarm(signum, frame):
-    _TIMEOUTS[0] += 1
+    _TIMEOUTS[_CURRENT[0]] = _TIMEOUTS.get(_CURRENT[0], 0) + 1
     raise StepTimeout("env.step did not return within the watchdog time")
 
 
@@ -48,9 +49,14 @@ def step_batch(env, td, actions, watchdog=None):
     # watchdog: a single (batched) step normally takes milliseconds; time-advance loops inside scheduling
     # environments can spin forever after a defect, which has to surface as a finding instead of a hung check
     use_alarm = threading.current_thread() is threading.main_thread()
+    _CURRENT[0] = type(env).__name__
+    seen = _TIMEOUTS.get(_CURRENT[0], 0)
+    if seen >= 6:
+        # this environment class has hung six times in this process: further steps are not attempted
+        raise StepTimeout(f"{_CURRENT[0]}.step hung {seen} times before in this process; not stepped again")
     if use_alarm:
         old = signal.signal(signal.SIGALRM, _on_alarm)
-        signal.alarm((watchdog or STEP_WATCHDOG_S) if _TIMEOUTS[0] < 2 else 5)
+        signal.alarm((watchdog or STEP_WATCHDOG_S) if seen < 2 else 5)
     try:
         td = env.step(td)["next"]
     finally:
